@@ -526,7 +526,8 @@ pub fn stream_case(seed: u64, l: &mut Local) {
         let (k, pkt) = match rng.below(8) {
             0 => (0, c01::g1_random(&mut rng)),
             1 | 2 => (1, c01::g2_mutate(&mut rng)),
-            3 | 4 => (2, c01::g3_grammar(&mut rng)),
+            3 => (2, c01::g3_grammar(&mut rng)),
+            4 => (2, c01::g6_off_by_one(&mut rng)),
             _ => (3, rich_packet(&mut rng, &browsed)),
         };
         kinds[k] += 1;
